@@ -59,7 +59,8 @@ AXES = {"pre": ["nothing", "xyz", "centres", "areas", "edges", "bounds", "all"],
         # where the source keeps its node positions: lon/lat only, or lon/lat plus Cartesian node_x/y/z on the unit sphere or on a
         # sphere of radius 6371.22 (MPAS / ESMF style, kilometres)
         # "constructor": the bare constructor ux.Grid(dataset) on a dataset in the internal naming (no source_grid_spec)
-        "source": ["lonlat", "xyz_unit", "xyz_km", "constructor"]}
+        # "topology_start1": Grid.from_topology handed ONE-BASED tables (start_index=1)
+        "source": ["lonlat", "xyz_unit", "xyz_km", "constructor", "topology_start1"]}
 _ENCODE_AS = {"ugrid": "UGRID", "exodus": "Exodus", "scrip": "SCRIP"}
 
 
@@ -116,6 +117,11 @@ def _source_grid(mesh, source):
     if source == "lonlat":
         return grid_of(mesh)
     import xarray as xr
+    if source == "topology_start1":
+        f1 = np.array(mesh["faces"], dtype=np.int64)
+        f1 = np.where(f1 == FILL, FILL, f1 + 1)
+        return ux.Grid.from_topology(node_lon=np.array(mesh["lon"], float), node_lat=np.array(mesh["lat"], float), face_node_connectivity=f1,
+                                     fill_value=FILL, start_index=1)
     if source == "constructor":
         import warnings
         ds0 = xr.Dataset()
